@@ -866,8 +866,9 @@ func (te *TemplateEngine) cloneDocument(source *Document) *Document {
 		// 如需统一行距，请在模板中显式设置，而非由代码层面硬编码。
 	}
 
-	// 渲染结果继续使用模板文档已有的列表编号定义
+	// 渲染结果继续使用模板文档已有的列表编号定义和脚注/尾注
 	doc.numberingManager = source.numberingManager.clone()
+	doc.footnoteManager = source.footnoteManager.clone()
 
 	// 复制所有文档部件，确保完整保留原文档结构
 	if doc.parts == nil {
